@@ -157,7 +157,7 @@ def absolute_positions(ck, rule):
              q.where, "constructor stores the label and the seed offset under their own names", found=str(m))
 
 
-CONVERSIONS = {"int", "float", "round", "abs", "floor", "ceil", "trunc", "rint", "around"}
+CONVERSIONS = {"int", "float", "round", "abs", "floor", "ceil", "trunc", "rint", "around", "max", "min", "clip"}
 
 
 def stored_unconverted(ck, rule):
